@@ -9,6 +9,11 @@ namespace ExprModel.Drv
 open ExprModel
 
 def optFlagsOfSexp : Sexp → Opt.Flags
+  | .list [.atom "flags", a, b, c, d, e, f, g] =>
+    { walkSliceNode := a.asBool.getD false, inArrayStrGuard := b.asBool.getD false,
+      inRangeKindGuard := c.asBool.getD false, inRangeSimpleLeft := d.asBool.getD false,
+      foldPlainOnly := e.asBool.getD false, constExprConvert := f.asBool.getD false,
+      constRangeNoOverflow := g.asBool.getD false }
   | .list [.atom "flags", a, b, c, d, e, f] =>
     { walkSliceNode := a.asBool.getD false, inArrayStrGuard := b.asBool.getD false,
       inRangeKindGuard := c.asBool.getD false, inRangeSimpleLeft := d.asBool.getD false,
@@ -98,6 +103,35 @@ def handleOptspec : List Sexp → Sexp
     | _, _, _ => .list [.atom "bad-request"]
   | _ => .list [.atom "bad-request"]
 
-def optHandlers : List (String × (List Sexp → Sexp)) := [("optimize", handleOptimize), ("optspec", handleOptspec)]
+/-- a range with literal bounds (after the model's constant folding) whose size `hi - lo + 1` does not fit Go's int -/
+partial def overflowRange : Node → Bool
+  | .binary _ op l r =>
+    (op == ".." && (match l, r with
+      | .int _ a, .int _ b => b - a + 1 > 9223372036854775807
+      | _, _ => false)) || overflowRange l || overflowRange r
+  | .unary _ _ x | .prop _ x _ _ | .closure _ x => overflowRange x
+  | .matches _ _ l r | .index _ l r | .pair _ l r => overflowRange l || overflowRange r
+  | .slice _ x f t => overflowRange x || (f.map overflowRange).getD false || (t.map overflowRange).getD false
+  | .method _ x _ args _ => overflowRange x || args.any overflowRange
+  | .func _ _ args _ | .builtin _ _ args | .array _ args | .map _ args => args.any overflowRange
+  | .cond _ a b d => overflowRange a || overflowRange b || overflowRange d
+  | _ => false
+
+/-- `(rangeinfo <typed node>)` → `(rangeinfo <some literal range overflows int> <const_range folds differently with the
+    overflow repair>)` -/
+def handleRangeInfo : List Sexp → Sexp
+  | [.atom "rangeinfo", node] =>
+    match Node.ofSexp node with
+    | some n =>
+      let folded := match Opt.repeatPass true (Opt.foldRule Opt.Flags.asWas optWorld) Opt.foldWalks n with
+        | .ok n' => n'
+        | .error _ => n
+      let a := (Opt.optimize Opt.Flags.asIs [] optWorld n).toOption.map fun t => t.toSexp.toStr
+      let b := (Opt.optimize { Opt.Flags.asIs with constRangeNoOverflow := true } [] optWorld n).toOption.map fun t => t.toSexp.toStr
+      .list [.atom "rangeinfo", Sexp.bool (overflowRange folded), Sexp.bool (a != b)]
+    | none => .list [.atom "bad-request"]
+  | _ => .list [.atom "bad-request"]
+
+def optHandlers : List (String × (List Sexp → Sexp)) := [("optimize", handleOptimize), ("optspec", handleOptspec), ("rangeinfo", handleRangeInfo)]
 
 end ExprModel.Drv
